@@ -100,3 +100,247 @@ def check_C01(tier, seed, res, replay=None):
     res.count_cases(cases, nontrivial_pair)
     res.add_samples([c for c in cases if nontrivial_pair(c)][:2] + cases[-1:])
     run_events(res, rd, "incl", cases)
+
+
+# ---------------------------------------------------------------------------------------- C02
+def nontrivial_both_nonempty(c):
+    return vlib.ta_nonempty(c["A"]) and vlib.ta_nonempty(c["B"])
+
+
+def c02_variants(c, rng):
+    """the four constructions, with the map-passing modes the property names"""
+    out = []
+    u = gen.present_pair(dict(c, op="union"), rng)
+    mode = rng.choice(["none", "fresh", "fresh", "pre"])
+    u["maps"] = mode
+    if mode == "pre":
+        # pre-filled entries: targets outside the range Union allocates from, pairwise distinct
+        sa = sorted(gen.states_of(u["A"]))
+        sb = sorted(gen.states_of(u["B"]))
+        u["preL"] = [[q, 1000 + i] for i, q in enumerate(sa) if rng.random() < 0.5]
+        u["preR"] = [[q, 2000 + i] for i, q in enumerate(sb) if rng.random() < 0.5]
+    out.append(u)
+    out.append(gen.present_pair(dict(c, op="uniondisj"), rng, disjoint=True))
+    for bu in (False, True):
+        i = gen.present_pair(dict(c, op="isect"), rng)
+        i["bu"] = bu
+        i["maps"] = rng.choice(["none", "fresh", "fresh"])
+        out.append(i)
+    return out
+
+
+def check_C02(tier, seed, res, replay=None):
+    rd = vlib.rundir("C02", tier)
+    res.rule = ("pairs of the TLC-enumerated bound B1 (sampled in quick, all in thorough) and seeded random pairs (<=4 states, <=7 rules); "
+                "each pair through Union (no maps / fresh maps / pre-filled maps), UnionDisjointStates (disjoint numbering), Intersection and IntersectionBU "
+                "(with and without product map); non-trivial = both operand languages non-empty; distinct by content hash")
+    res.assumptions = ["pre-filled Union maps use targets outside 0..n (inside that range the weak translator hands out colliding numbers)",
+                       "product maps are passed empty (the construction numbers new states by map size)"]
+    if replay:
+        return do_replay(res, rd, replay)
+    rng = random.Random(seed)
+    cases = []
+    frac = 1.0 if tier == "thorough" else 0.04
+    for c in enum_cases("pair", "abgf", 2, 2, 2, 2, sample=frac, rng=rng):
+        cases += c02_variants(c, rng)
+    nrand = 12000 if tier == "thorough" else 2000
+    for i in range(nrand):
+        A, alpha = gen.rand_ta(rng)
+        B, _ = gen.rand_ta(rng, alpha=alpha)
+        cases += c02_variants({"id": ["r", i], "A": A, "B": B, "src": "random"}, rng)
+    res.count_cases(cases, nontrivial_both_nonempty)
+    res.add_samples([c for c in cases if nontrivial_both_nonempty(c)][:3])
+    run_events(res, rd, "c02", cases)
+
+
+# ---------------------------------------------------------------------------------------- C03
+def nontrivial_trim(c):
+    a = c["A"]
+    return vlib.ta_nonempty(a) or len(vlib.ta_states(a)) > len(vlib.ta_productive(a))
+
+
+def single_cases(tier, rng, op, frac_quick, extra=None, nrand_quick=3000, nrand_thorough=20000, nums=("id", "rev", "sparse", "perm")):
+    """B1' (<=3 states, <=3 rules over a,b,g,f; TLC-enumerated) + seeded random automata, each under a presentation"""
+    cases = []
+    frac = 1.0 if tier == "thorough" else frac_quick
+    for c in enum_cases("single", "abgf", 3, 3, sample=frac, rng=rng):
+        d = dict(c, op=op)
+        d["A"] = gen.present(c["A"], rng, rng.choice(nums), n=3)
+        d["syms"] = gen.syms_of(d["A"])
+        rng.shuffle(d["syms"])
+        if extra:
+            extra(d, rng)
+        cases.append(d)
+    for i in range(nrand_thorough if tier == "thorough" else nrand_quick):
+        A, alpha = gen.rand_ta(rng)
+        d = {"id": ["r", i], "op": op, "src": "random"}
+        d["A"] = gen.present(A, rng, rng.choice(nums))
+        d["syms"] = gen.syms_of(d["A"])
+        if extra:
+            extra(d, rng)
+        cases.append(d)
+    return cases
+
+
+def check_C03(tier, seed, res, replay=None):
+    rd = vlib.rundir("C03", tier)
+    res.rule = ("single automata of bound B1' (<=3 states, <=3 rules over a/0,b/0,g/1,f/2; TLC-enumerated, sampled in quick) plus killer inputs and seeded random "
+                "automata (<=4 states, <=7 rules) under random numberings; RemoveUnreachableStates, RemoveUselessStates and IsLangEmpty in one event; "
+                "non-trivial = language non-empty or some state unproductive; distinct by content hash")
+    if replay:
+        return do_replay(res, rd, replay)
+    rng = random.Random(seed)
+    cases = single_cases(tier, rng, "trim", 0.5)
+    for k in load_killers("trim.ndjson"):
+        cases.append(dict(k, op="trim"))
+    res.count_cases(cases, nontrivial_trim)
+    res.add_samples([c for c in cases if nontrivial_trim(c)][:3])
+    run_events(res, rd, "c03", cases)
+
+
+# ---------------------------------------------------------------------------------------- C04
+def dense(c, rng):
+    """simulation needs states 0..n-1 and n: random dense numbering; n = number of states"""
+    a = c["A"]
+    if not vlib.ta_is_trim(a) and rng.random() < 0.5:
+        t = vlib.ta_trim(a)          # shape half of the untrimmed inputs into the upward simulation's domain
+        if t["rules"]:
+            a = t
+    st = sorted(gen.states_of(a))
+    perm = list(range(len(st)))
+    rng.shuffle(perm)
+    f = {q: perm[i] for i, q in enumerate(st)}
+    c["A"] = gen.rename(a, f)
+    rng.shuffle(c["A"]["rules"])
+    c["n"] = len(st)
+    # the upward simulation is specified for automata without useless states only
+    c["dirs"] = ["down", "up"] if vlib.ta_is_trim(c["A"]) else ["down"]
+
+
+def check_C04(tier, seed, res, replay=None):
+    rd = vlib.rundir("C04", tier)
+    res.rule = ("single automata of bound B1' (TLC-enumerated) and seeded random automata under random DENSE numberings 0..n-1 with n passed as the number of states; "
+                "downward simulation judged for every automaton, upward simulation for trimmed ones; non-trivial = automaton has >=2 states and a non-leaf rule")
+    if replay:
+        return do_replay(res, rd, replay)
+    rng = random.Random(seed)
+    cases = single_cases(tier, rng, "sim", 0.5, extra=dense)
+    for k in load_killers("sim.ndjson"):
+        cases.append(dict(k, op="sim"))
+    nt = lambda c: c["n"] >= 2 and any(len(r[1]) for r in c["A"]["rules"])
+    res.count_cases(cases, nt)
+    res.add_samples([c for c in cases if nt(c)][:3])
+    run_events(res, rd, "c04", cases)
+
+
+# ---------------------------------------------------------------------------------------- C05
+def check_C05(tier, seed, res, replay=None):
+    rd = vlib.rundir("C05", tier)
+    res.rule = ("single automata of bound B1' (TLC-enumerated) and seeded random automata under identity/reversed/sparse/permuted numberings; "
+                "non-trivial = language non-empty and >= 2 states")
+    if replay:
+        return do_replay(res, rd, replay)
+    rng = random.Random(seed)
+    cases = single_cases(tier, rng, "reduce", 0.08)
+    nt = lambda c: vlib.ta_nonempty(c["A"]) and len(vlib.ta_states(c["A"])) >= 2
+    res.count_cases(cases, nt)
+    res.add_samples([c for c in cases if nt(c)][:3])
+    run_events(res, rd, "c05", cases)
+
+
+# ---------------------------------------------------------------------------------------- C06
+def compl_extra(c, rng):
+    """the alphabet: symbols of A plus registered-but-unused ones, in random registration order"""
+    syms = gen.syms_of(c["A"])
+    for s in [["a", 0], ["b", 0], ["g", 1], ["f", 2], ["z", 0], ["u", 1]]:
+        if s not in syms and rng.random() < 0.3:
+            syms.append(s)
+    rng.shuffle(syms)
+    c["syms"] = syms
+
+
+def check_C06(tier, seed, res, replay=None):
+    rd = vlib.rundir("C06", tier)
+    res.rule = ("single automata of bound B1' (TLC-enumerated) and seeded random automata, each with a private on-the-fly alphabet = symbols of A plus random "
+                "registered-but-unused symbols (incl. nullary-only alphabets); non-trivial = A's language neither empty nor its rule set empty")
+    res.assumptions = ["rules of the result are read as symbol numbers through the operand's alphabet (the result object carries the process-wide default alphabet)"]
+    if replay:
+        return do_replay(res, rd, replay)
+    rng = random.Random(seed)
+    cases = single_cases(tier, rng, "compl", 0.05, extra=compl_extra, nrand_quick=1500, nrand_thorough=8000)
+    nt = lambda c: vlib.ta_nonempty(c["A"])
+    res.count_cases(cases, nt)
+    res.add_samples([c for c in cases if nt(c)][:3])
+    run_events(res, rd, "c06", cases, timeout_ms=10000)
+
+
+# ---------------------------------------------------------------------------------------- C14
+def reindex_extra(c, rng):
+    st = sorted(gen.states_of(c["A"]))
+    how = rng.choice(["weak", "weak", "fctor", "dst", "collapse", "collapse"])
+    c["how"] = how
+    kind = rng.choice(["inj", "merge", "ident", "sparse"])
+    targets = {"inj": None, "merge": [0, 1], "ident": None, "sparse": None}[kind]
+    m = {}
+    if kind == "inj":
+        p = list(range(len(st)))
+        rng.shuffle(p)
+        m = {q: p[i] + 20 for i, q in enumerate(st)}
+    elif kind == "merge":
+        m = {q: rng.choice(targets) for q in st}
+    elif kind == "ident":
+        m = {q: q for q in st}
+    else:
+        m = {q: 1000 * (i + 1) + 7 for i, q in enumerate(st)}
+    if how == "weak":
+        # partial pre-filled map; unknown states are numbered from base on
+        keep = {q: v for q, v in m.items() if rng.random() < 0.5}
+        c["map"] = [[q, v] for q, v in keep.items()]
+        c["base"] = rng.choice([0, 5, 5000])
+        if any(v >= c["base"] and v < c["base"] + len(st) for v in keep.values()):
+            c["base"] = 5000          # avoid colliding with the pre-filled targets (outside the property's domain)
+    else:
+        c["map"] = [[q, v] for q, v in m.items()]
+    if how == "dst":
+        D, _ = gen.rand_ta(rng, nq=2, nrules=rng.choice([0, 1, 2]), alpha=[s for s in gen.syms_of(c["A"])] or [["a", 0]])
+        c["D"] = D
+    if how in ("fctor", "dst") and rng.random() < 0.3:
+        c["addFinal"] = False
+    c["mapkind"] = kind
+
+
+def translsym_extra(c, rng):
+    syms = gen.syms_of(c["A"])
+    names = ["a", "b", "g", "f", "x", "y"]
+    c["symmap"] = [[s[0], s[1], rng.choice(names)] for s in syms]
+
+
+def check_C14(tier, seed, res, replay=None):
+    rd = vlib.rundir("C14", tier)
+    res.rule = ("single automata of bound B1' (TLC-enumerated) and random automata x state maps (injective, merging, identity, sparse) through ReindexStates "
+                "(weak translator with partial pre-filled map, functor, functor into a non-empty destination) and CollapseStates, and symbol maps through "
+                "TranslateSymbols; non-trivial = map is not the identity and the automaton has a rule")
+    if replay:
+        return do_replay(res, rd, replay)
+    rng = random.Random(seed)
+    cases = single_cases(tier, rng, "reindex", 0.10, extra=reindex_extra)
+    cases += single_cases(tier, rng, "translsym", 0.05, extra=translsym_extra, nrand_quick=1000, nrand_thorough=5000)
+    nt = lambda c: bool(c["A"]["rules"]) and c.get("mapkind") != "ident"
+    res.count_cases(cases, nt)
+    res.add_samples([c for c in cases if nt(c)][:3])
+    run_events(res, rd, "c14", cases)
+
+
+# ---------------------------------------------------------------------------------------- C15
+def check_C15(tier, seed, res, replay=None):
+    rd = vlib.rundir("C15", tier)
+    res.rule = ("single automata of bound B1' (TLC-enumerated) and seeded random automata under random numberings; GetCandidateTree; "
+                "non-trivial = language non-empty")
+    if replay:
+        return do_replay(res, rd, replay)
+    rng = random.Random(seed)
+    cases = single_cases(tier, rng, "witness", 0.15)
+    nt = lambda c: vlib.ta_nonempty(c["A"])
+    res.count_cases(cases, nt)
+    res.add_samples([c for c in cases if nt(c)][:3])
+    run_events(res, rd, "c15", cases)
